@@ -457,9 +457,10 @@ class RangeConstraint(Constraint):
                     )
                 ],
             )
-        # Convert value to numeric type
+        # Convert value to numeric type. Numbers are compared as they are: converting an
+        # int to float first would round integers beyond 2**53 and misjudge the bounds.
         try:
-            numeric_value = float(value) if isinstance(value, int | float) else float(value)
+            numeric_value = value if isinstance(value, int | float) else float(value)
         except (ValueError, TypeError):
             return ValidationResult(
                 valid=False,
